@@ -254,6 +254,13 @@ func condWorld(r *R) {
 				woke++
 			}
 		}
+		if woke == 0 && j > 0 {
+			// Not one Wait returned although Signals were invoked while this waiter was available: a
+			// wakeup vanished altogether (the one-slot channel of the known finding can drop or
+			// misdirect signals, but every token it does accept wakes somebody).
+			r.Violate("C16", "lost-wakeup/signal-vanished/"+entry, "waiter%d released the lock at #%d and is still parked with a live context; since then %d Signal calls were invoked and not a single Wait call returned", w.id, w.unlockSeq, j)
+			return
+		}
 		if woke < j {
 			r.Violate("C16", "lost-wakeup/signal/"+entry, "waiter%d released the lock at #%d and is still parked with a live context; since then %d Signal calls were invoked but only %d Wait calls returned nil: a wakeup was lost", w.id, w.unlockSeq, j, woke)
 			return
